@@ -24,6 +24,7 @@ class Agg:
         self.failures = []        # dicts: {index, seed, check_id, message, case}
         self.known = []           # same, for runs explained by an open known finding
         self.samples = []         # a few cases as run
+        self.sample_classes = set()
         self.sets = {}            # name -> set of small hashables (distinct measures)
         self.sums = {}            # name -> float
 
@@ -55,7 +56,8 @@ class Agg:
             if len(self.known) < max_fail:
                 self.known.append(f)
         for s in o.samples:
-            if len(self.samples) < max_samples:
+            if len(self.samples) < max_samples and s.get("class") not in self.sample_classes:
+                self.sample_classes.add(s.get("class"))
                 self.samples.append(s)
 
 
